@@ -175,6 +175,22 @@ Theorem C13_rekey_only_key : forall A L d P, wfb A = true -> generate_adms A = O
 Proof. exact rekey_only_key. Qed.
 Print Assumptions C13_rekey_only_key.
 
+(* several aggregates in one store: a later partitioning (of the same or of another aggregate) whose graph ids are not
+   in use by an earlier result leaves that earlier result exactly the partitions of ITS aggregate.  The hypothesis
+   is about the ids the later call uses (uuid4 draws new ones on every call; a caller must not hand the same ids
+   to two calls); that generate_adms keeps no ids from one call to the next is checked by the `pair` stream. *)
+Theorem C13_earlier_result_unchanged :
+  forall st garm1 A1 sup1 fresh1 st1 dgs1 garm2 A2 sup2 fresh2 st2 dgs2,
+  sget st garm1 = Some A1 -> wfb A1 = true -> uuid_fresh garm1 sup1 fresh1 (c_ids (catalog_delegations A1)) ->
+  st_generate_adms st garm1 sup1 fresh1 = (st1, Ok dgs1) ->
+  sget st1 garm2 = Some A2 -> wfb A2 = true -> uuid_fresh garm2 sup2 fresh2 (c_ids (catalog_delegations A2)) ->
+  st_generate_adms st1 garm2 sup2 fresh2 = (st2, Ok dgs2) ->
+  (forall gid, In gid (map snd dgs1) -> ~ In gid (map snd dgs2)) ->
+  exists L1, generate_adms A1 = Ok L1 /\
+    forall d P, In (d, P) L1 -> sget st2 (gid_for sup1 fresh1 d) = Some P.
+Proof. exact earlier_result_unchanged. Qed.
+Print Assumptions C13_earlier_result_unchanged.
+
 (* store-level frame of the re-keying: rewrite_delegations on the graph stored under gid changes nothing outside
    that graph (the source, the other partitions, other models), and what it does to that graph is
    rewrite_delegations; hence partition / re-key a partition / partition again finds the source as it was and
